@@ -294,6 +294,12 @@ def do_comp(ex, node, st, kind):
             tnames = {n_.id for n_ in ast.walk(g.target) if isinstance(n_, ast.Name)}
             if (not conds and isinstance(g.target, ast.Name) and isinstance(node.key, ast.Name) and node.key.id == g.target.id
                     and src.elem is S.Str and not (tnames & {n_.id for n_ in ast.walk(node.value) if isinstance(n_, ast.Name)})):
+                if isinstance(node.value, ast.List) and not node.value.elts:
+                    # {c: [] for c in seq}: a dict of (ballot) lists, all empty
+                    from .builtins_model import set_of_seq
+                    from .sorts import VLDict
+                    ks = set_of_seq(ex, st, src)
+                    return VLDict(ks.term, z3.K(S.PyStr, z3.Empty(S.SeqBallot)))
                 vx = ex.eval(node.value, st)
                 if isinstance(vx, VNum):
                     from .builtins_model import set_of_seq
